@@ -258,6 +258,7 @@ static void trial_compute(const tparams *tp, tresult *res)
         cmb_event_queue_terminate();
         break; }
     }
+    if (tp->n % 3u != 0u) cmb_random_terminate();                    /* most trials end the documented way; some leave the generator as it is */
 }
 
 static void store_result(unsigned char *elem, const tresult *res)
